@@ -48,6 +48,16 @@ Proof.
 Qed.
 Print Assumptions tcp_refuses_no_sni_and_h3.
 
+(* "the most preferred one that the client offered, the listener enables and the channel permits ... and HTTP/3 is never selected
+   on a TCP connection": on TCP an offer of h3 does not count - the outcome is the one of the rest of the offer - and a client that
+   offers nothing but h3 is refused *)
+Theorem tcp_offer_of_h3_is_ignored :
+  (forall c alpn sni, filter not_h3 alpn <> [] ->
+     select_tcp_with TCP_H3_OFFER_IGNORED c alpn sni = select_tcp_with TCP_H3_OFFER_IGNORED c (filter not_h3 alpn) sni)
+  /\ (forall c alpn sni, alpn <> [] -> filter not_h3 alpn = [] -> select_tcp_with TCP_H3_OFFER_IGNORED c alpn sni = None).
+Proof. split; [exact tcp_h3_offer_is_ignored_proof|exact tcp_only_h3_refused_proof]. Qed.
+Print Assumptions tcp_offer_of_h3_is_ignored.
+
 (* in the composition with the rules and the handshake (Model/FrontDoor.v): a TCP connection is served only as
    the demultiplexer's selection for its SNI and ALPN offer, never with HTTP/3, and only if the rules allow it;
    when they allow it the outcome is the demultiplexer's alone *)
